@@ -21,53 +21,96 @@ let run_hist ops =
   let outs = List.map (fun o ->
     match String.split_on_char ':' o with
     | ["r"; a; ty; old; nw] ->
-      (match step !st (Record (bytes_of_hex a, ty_of ty, u32 old, u32 nw)) with
+      (match hstep !st (Record (bytes_of_hex a, ty_of ty, u32 old, u32 nw)) with
        | Some (s, _) -> st := s; show_hist s
        | None -> "OOB")
     | ["s"; k] ->
-      (match step !st (Seek (z_of_string k)) with
+      (match hstep !st (Seek (z_of_string k)) with
        | Some (s, ms) -> st := s; show_seek s ms
        | None -> "OOB")
     | ["t"; d] ->
-      (match step !st (Tick (z_of_string d)) with
+      (match hstep !st (Tick (z_of_string d)) with
        | Some (s, _) -> st := s; "-"
        | None -> "OOB")
     | _ -> "BADOP") ops in
   String.concat "|" outs
 
-let run_e2e ops =
-  let st = ref (zero_store, init) in
-  let show_app () =
-    let f = fst !st in
-    Printf.sprintf " a=%d,%d,%d,%s,%s,%s,%s" (s32_of_u32 (f (bytes_of_string "/b"))) (s32_of_u32 (f (bytes_of_string "/i")))
-      (s32_of_u32 (f (bytes_of_string "/j"))) (show_u32 (f (bytes_of_string "/x"))) (show_u32 (f (bytes_of_string "/a0")))
-      (show_u32 (f (bytes_of_string "/a1"))) (show_u32 (f (bytes_of_string "/a2"))) in
+(* e2e: the port table comes with the case line (field 3):
+   name:kind:N:min:max:opts joined by ','   kind as in the C14 case lines, min/max decimal
+   (float kinds: the binary32 bit pattern), opts k=sym/k=sym or '-' *)
+let u32_of_z (v:z) : string =
+  let i = int_of_z v in string_of_int (if i < 0 then i + 0x100000000 else i)
+let parse_port (d:string) =
+  match String.split_on_char ':' d with
+  | [name; kind; n; mn; mx; opts] ->
+    let n = int_of_string n in
+    let k = (match kind with
+        | "P" -> KP | "F" -> KF | "I" -> KI | "O" -> KO | "T" -> KT
+        | "AI" | "PA" -> KAI | "AF" -> KAF | "AO" -> KAO | "AT" -> KAT
+        | "PS" -> KPS (z_of_int n)
+        | "CO" -> KCO
+        | _ -> failwith "kind") in
+    let arrayk = (match k with KAI | KAF | KAO | KAT -> true | _ -> false) in
+    let conv t = if t = "-" then None else Some (z_of_string t) in
+    let mp = if opts = "-" then [] else
+        List.map (fun kv -> match String.index_opt kv '=' with
+            | Some p -> (z_of_string (String.sub kv 0 p), bytes_of_string (String.sub kv (p+1) (String.length kv - p - 1)))
+            | None -> failwith "opt") (String.split_on_char '/' opts) in
+    let e = { p_name = bytes_of_string name; p_hash = arrayk; p_min = conv mn; p_max = conv mx; p_map = mp } in
+    ({ pk = k; pe = e; pn = z_of_int n }, List.init (if arrayk || kind = "PS" then n else if kind = "CO" then 2 else 1) (fun _ -> Z0))
+  | _ -> failwith "port"
+let parse_arg (v:string) : arg =
+  let rest = String.sub v 1 (String.length v - 1) in
+  match v.[0] with
+  | 'i' -> Ai (z_of_string rest)
+  | 'c' -> Ac (z_of_string rest)
+  | 'f' -> Af (z_of_string rest)
+  | 'S' -> ASy (bytes_of_hex rest)
+  | 'T' -> ATrue
+  | 'F' -> AFalse
+  | _ -> failwith "val"
+let show_hist_e2e (s:hstate) : string =
+  Printf.sprintf "p=%d n=%d h=%s" (int_of_nat s.pos) (List.length s.hist)
+    (String.concat ";" (List.map (fun e ->
+       Printf.sprintf "%s/%s/%s/%s" (hex_of_bytes e.eaddr) (show_ty e.ety) (u32_of_z e.eold) (u32_of_z e.enew)) s.hist))
+let show_msg_e2e = function
+  | SetMsg (a, ty, v) -> Printf.sprintf "%s/%s/%s" (hex_of_bytes a) (show_ty ty) (u32_of_z v)
+let run_e2e ops table =
+  let st = ref (List.map parse_port (String.split_on_char ',' table), init) in
+  let show_app n =
+    let cells = List.filter (fun (c, _) -> match c.pk with KPS _ -> false | _ -> true) (fst !st) in
+    let show_cell (c, vs) = List.map (fun v -> match c.pk with
+        | KF | KAF -> u32_of_z v | _ -> string_of_int (int_of_z v)) vs in
+    Printf.sprintf " hit=%d a=%s" (int_of_z n) (String.concat "," (List.concat (List.map show_cell cells))) in
   let outs = List.map (fun o ->
     match String.split_on_char ':' o with
     | ["c"; p; v] ->
-      let isf = (p = "x" || p.[0] = 'a') in
-      let ty = if p = "b" then "c" else if isf then "f" else "i" in
-      let value = if isf then u32 v else u32_of_int (int_of_string v) in
-      (match estep !st (Change (bytes_of_string ("/" ^ p), ty_of ty, value)) with
-       | Some (s, _) -> st := s; show_hist (snd s) ^ show_app ()
-       | None -> "OOB")
+      (match pstep !st (PSet (bytes_of_string p, [parse_arg v])) with
+       | Some ((s, _), n) -> st := s; show_hist_e2e (snd s) ^ show_app n
+       | None -> "NONE")
+    | ["q"; p] ->
+      (match pstep !st (PSet (bytes_of_string p, [])) with
+       | Some ((s, _), n) -> st := s; show_hist_e2e (snd s) ^ show_app n
+       | None -> "NONE")
     | ["s"; k] ->
-      (match estep !st (ESeek (z_of_string k)) with
-       | Some (s, ms) -> st := s; show_seek (snd s) ms ^ show_app ()
-       | None -> "OOB")
+      (match pstep !st (PSeek (z_of_string k)) with
+       | Some ((s, ms), n) -> st := s;
+         Printf.sprintf "m=%s p=%d n=%d" (String.concat ";" (List.map show_msg_e2e ms)) (int_of_nat (snd s).pos) (List.length (snd s).hist)
+         ^ show_app n
+       | None -> "NONE")
     | ["t"; d] ->
-      (match estep !st (ETick (z_of_string d)) with
-       | Some (s, _) -> st := s; "-" ^ show_app ()
-       | None -> "OOB")
+      (match pstep !st (PTick (z_of_string d)) with
+       | Some ((s, _), n) -> st := s; "-" ^ show_app n
+       | None -> "NONE")
     | _ -> "BADOP") ops in
   String.concat "|" outs
 
 let () = each_line (fun line ->
   match String.split_on_char ' ' line with
-  | kind :: ops :: _ ->
+  | kind :: ops :: rest ->
     let ops = if ops = "-" then [] else String.split_on_char ',' ops in
-    (match kind with
-     | "hist" -> print_endline (run_hist ops)
-     | "e2e" -> print_endline (run_e2e ops)
+    (match kind, rest with
+     | "hist", _ -> print_endline (run_hist ops)
+     | "e2e", table :: _ -> (try print_endline (run_e2e ops table) with Failure m -> print_endline ("BADCASE " ^ m))
      | _ -> print_endline "BADCASE")
   | _ -> print_endline "BADCASE")
